@@ -33,7 +33,13 @@
 static scpi_t ctx;
 static scpi_error_t queue[6];
 static char msg[40];
-static const char text[] = "H " DATA "\n";
+#ifndef PREFIX
+#define PREFIX ""
+#define PREFIX_ERRS 0
+#endif
+/* PREFIX: an earlier unit of the same message that raises PREFIX_ERRS errors of its own (e.g. "NOPE;" -> -113): the unit
+ * under test must be accounted for exactly as if it stood alone */
+static const char text[] = PREFIX "H " DATA "\n";
 static int calls, got[3], gave_up, own_error, ret_err;
 
 static scpi_result_t handler(scpi_t * c) {
@@ -60,7 +66,12 @@ static scpi_result_t handler(scpi_t * c) {
     return SCPI_RES_OK;
 }
 
-static const scpi_command_t cmds[] = {{"H", handler, 0}, SCPI_CMD_LIST_END};
+static scpi_result_t ok_handler(scpi_t * c) {
+    (void) c;
+    return SCPI_RES_OK;
+}
+
+static const scpi_command_t cmds[] = {{"H", handler, 0}, {"G", ok_handler, 1}, SCPI_CMD_LIST_END};
 
 void harness(void) {
     int i, j;
@@ -74,10 +85,11 @@ void harness(void) {
     ctx.cmd_error = vin.pre_cmd_error & 1; /* whatever an earlier command left */
     res = SCPI_Parse(&ctx, msg, (int) sizeof text - 1);
     VASSERT((res ? 1 : 0) == (ctx.error_queue.count == 0 ? 1 : 0), "C05 the result is FALSE exactly when the message raised an error");
+    VASSERT(ctx.error_queue.count >= PREFIX_ERRS, "P: the prefix unit raised its own error(s)");
 #if MALFORMED
     VASSERT(calls == 0, "C05 text that is not well-formed program data never reaches a handler");
-    VASSERT(ctx.error_queue.count >= 1, "C05 a unit with malformed data queues an error");
-    for (i = 0; i < 6; i++) if (i < ctx.error_queue.count) VASSERT(queue[i].error_code <= -100 && queue[i].error_code >= -199, "C05 a unit with malformed data queues command errors (-1xx)");
+    VASSERT(ctx.error_queue.count >= PREFIX_ERRS + 1, "C05 a unit with malformed data queues an error");
+    for (i = PREFIX_ERRS; i < 6; i++) if (i < ctx.error_queue.count) VASSERT(queue[i].error_code <= -100 && queue[i].error_code >= -199, "C05 a unit with malformed data queues command errors (-1xx)");
 #else
     VASSERT(calls == 1, "C05 a unit with well-formed data runs its handler once");
     {
@@ -101,9 +113,9 @@ void harness(void) {
             else if (READS < ITEMS) expect = SCPI_ERROR_PARAMETER_NOT_ALLOWED;
         }
         if (expect == 0) {
-            VASSERT(ctx.error_queue.count == 0, "C05 a correct call raises no error");
+            VASSERT(ctx.error_queue.count == PREFIX_ERRS, "C05 a correct call raises no error");
         } else {
-            VASSERT(ctx.error_queue.count == 1 && queue[0].error_code == expect, "C05 exactly one error: -109 missing mandatory parameter, the handler's own error, -200 for a silent failure, -108 for parameters left unread");
+            VASSERT(ctx.error_queue.count == PREFIX_ERRS + 1 && queue[PREFIX_ERRS].error_code == expect, "C05 exactly one error: -109 missing mandatory parameter, the handler's own error, -200 for a silent failure, -108 for parameters left unread");
         }
         if (expect == SCPI_ERROR_EXECUTION_ERROR) VWITNESS("silent-failure");
     }
